@@ -26,13 +26,13 @@ def run(ctx, cmd, **kw):
     r = subprocess.run(cmd, shell=True, cwd=ctx.root, env=ctx.env, capture_output=True, text=True, **kw)
     return r
 
-def harness(ctx, level, seed, n, outdir, extra='', corpus=None):
+def harness(ctx, level, seed, n, outdir, extra='', corpus=None, binary='harness'):
     os.makedirs(outdir, exist_ok=True)
     for f in ('cases.txt', 'impl.txt', 'model.txt', 'stats.txt'):
         try: os.remove(os.path.join(outdir, f))
         except FileNotFoundError: pass
-    r = run(ctx, f'timeout 3000 ./harness/bin/harness {level} {seed} {n} {outdir} {extra}')
-    if r.returncode != 0:
+    r = run(ctx, f'timeout 3000 ./harness/bin/{binary} {level} {seed} {n} {outdir} {extra}')
+    if r.returncode != 0 and not (binary == 'harness-race' and 'DATA RACE' in (r.stderr or '')):
         return r
     # corpus: recorded histories (witnesses of findings, regressions of repaired defects, seeded
     # changes that random generation found) are replayed on the implementation with every run
@@ -281,7 +281,7 @@ def desc_sparse_excuse(case, got, want):
         return False
     return rg != rw and is_subsequence(rg, rw)
 
-def l2_suite(profile, quick=60, thorough=1500, native=True, name=None, extra_monitor=None):
+def l2_suite(profile, quick=60, thorough=1500, native=True, name=None, extra_monitor=None, level='l2', binary='harness'):
     nm = name or f'l2-{profile}'
     def f(ctx):
         res = Result(f'{nm}', f'L2: random SQL statement programs (profile {profile}: INSERT/UPDATE/DELETE/SELECT with key '
@@ -291,8 +291,18 @@ def l2_suite(profile, quick=60, thorough=1500, native=True, name=None, extra_mon
                      + '; non-trivial = distinct program with at least one successful write and one non-empty SELECT')
         outdir = os.path.join(ctx.out, f'{nm}-{ctx.prop}')
         n = ctx.n(quick, thorough)
-        r = harness(ctx, 'l2', ctx.seed_for(nm), n, outdir, profile, corpus=nm)
-        if r.returncode != 0:
+        if binary == 'harness-race':
+            rb = run(ctx, 'make harness-race 2>&1')
+            if rb.returncode != 0:
+                res.mismatches.append(dict(suite=res.name, case='race-enabled harness build failed', impl=rb.stdout[-1500:], model=''))
+                return res
+        r = harness(ctx, level, ctx.seed_for(nm), n, outdir, profile if level == 'l2' else '', corpus=nm, binary=binary)
+        races = (r.stderr or '').count('WARNING: DATA RACE') if binary == 'harness-race' else 0
+        res.stats_races = races
+        if races:
+            first = (r.stderr or '').split('WARNING: DATA RACE', 2)[1][:3000]
+            res.property_failures.append(dict(suite=res.name, case='threaded run', what=f'the race detector reported {races} data race(s)', impl=first))
+        if r.returncode != 0 and not races:
             res.mismatches.append(dict(suite=res.name, case='harness failed', impl=(r.stderr or r.stdout)[-2000:], model=''))
             return res
         cases = open(f'{outdir}/cases.txt').read().splitlines()
@@ -776,6 +786,9 @@ def c20_suite(quick=300, thorough=8000):
         return res
     return f
 
+register('C19', [l2_suite('threads', native=True, name='l2-threads', level='l2t', binary='harness-race', quick=48, thorough=1200,
+                          extra_monitor=lambda *a: (c15_monitor(*a), c02_monitor(*a)))],
+         ['every world (its connections, tables, bucket) is independent of the others; only process-wide state is shared'])
 register('C20', [c20_suite()], ['the lexical level (regular expressions, quoting, case folding) is exercised through rendering, not modelled; SQLite\'s own parsing of the declared CREATE TABLE text is observed through PRAGMA table_info'])
 
 # ---------------------------------------------------------------- L1 scheduled concurrency (C03)
